@@ -121,7 +121,7 @@ Record Inv (cfg : config) (s : state) : Prop := mkInv
     i_idle : zb (guarded s) = 1 \/ inflight s = 0;
     i_owner : lenz (cont s) = 0 \/ zb (guarded s) = 1 \/ 0 < sumz b_exitpre (fl s) }.
 
-Lemma c_in_nonneg p : 0 <= c_in p. Proof. destruct p as [| | | |[]| | |]; cbn; lia. Qed.
+Lemma c_in_nonneg p : 0 <= c_in p. Proof. destruct p as [| | | |[]| | | |]; cbn; lia. Qed.
 Lemma b_in_nonneg p : 0 <= b_in p.
 Proof. destruct p as [| | | | | | |[]| | |[]|]; cbn; lia. Qed.
 Lemma c_send_nonneg p : 0 <= c_send p. Proof. destruct p; cbn; lia. Qed.
@@ -267,7 +267,7 @@ Proof.
   intros HI H. unfold cstep in H.
   destruct (nth_error (cl s) c) as [pc|] eqn:Hn; [|discriminate].
   pose proof (sumz_ge_nth c_adding _ _ _ c_adding_nonneg Hn) as Hadding.
-  destruct pc as [|t w|h| |f wt| | |]; try discriminate.
+  destruct pc as [|t w|h| |f wt| | | |]; try discriminate.
   all: try (destruct f as [| |h|ok|ok]); try destruct wt; cbn [fstep] in H; unfold callback in H;
     brk2 H; inversion H; subst s'; clear H; conf_nth.
   all: solve_case HI.
